@@ -139,6 +139,13 @@ def dml(draw):
     tags = {'dml:' + kind}
     new_tables = []
 
+    def nm(c):
+        # a name written in back-quotes denotes the same column (SQLite reads `a` as a quoted name too)
+        if g.chance(1, 4):
+            tags.add('dml:quoted-name')
+            return '`' + c + '`'
+        return c
+
     def val(typ):
         if typ == 'int':
             return g.pick(['NULL', '0', '1', '2', '7', '-1'])
@@ -148,19 +155,19 @@ def dml(draw):
         n = draw(st.integers(1, 3))
         use = cols if g.chance(1, 2) else [c for c in cols if g.chance(2, 3)] or cols[:1]
         rows = ', '.join('(' + ', '.join(val(ty) for _, ty in use) + ')' for _ in range(n))
-        collist = '' if use is cols and g.chance(1, 2) else ' (' + ', '.join(c for c, _ in use) + ')'
+        collist = '' if use is cols and g.chance(1, 2) else ' (' + ', '.join(nm(c) for c, _ in use) + ')'
         sql = f'INSERT INTO {t}{collist} VALUES {rows}'
     elif kind == 'insert_select':
         src = g.pick([x for x in sorted(model.SCHEMA) if len(model.SCHEMA[x]) >= 2])
         a, b = model.SCHEMA[src][0][0], model.SCHEMA[src][1][0]
         where = ' WHERE ' + g.bool_expr([(None, model.SCHEMA[src])], 1, allow_sub=False) if g.chance(1, 2) else ''
-        sql = f'INSERT INTO {t} ({cols[0][0]}, {cols[1][0]}) SELECT {a}, {b} FROM {src}{where}'
+        sql = f'INSERT INTO {t} ({nm(cols[0][0])}, {nm(cols[1][0])}) SELECT {a}, {b} FROM {src}{where}'
     elif kind == 'update':
         sets = []
         for c, ty in cols:
             if g.chance(1, 2) or not sets:
                 e = g.int_expr(scope, 1) if ty == 'int' else g.text_expr(scope, 1)
-                sets.append(f'{c} = {e}')
+                sets.append(f'{nm(c)} = {e}')
         where = ' WHERE ' + g.bool_expr(scope, 1, allow_sub=False) if g.chance(3, 4) else ''
         sql = f'UPDATE {t} SET {", ".join(sets)}{where}'
     elif kind == 'delete':
@@ -173,7 +180,7 @@ def dml(draw):
         for i in range(draw(st.integers(1, 3))):
             ty = g.pick(['int', 'integer', 'varchar(10)', 'text', 'float'])
             extra = g.pick(['', '', ' NOT NULL', ' NULL', ' PRIMARY KEY' if i == 0 else ''])
-            defs.append(f'k{i} {ty}{extra}')
+            defs.append(f'{nm("k" + str(i))} {ty}{extra}')
         sql = [f'CREATE TABLE {g.pick(["", "IF NOT EXISTS "])}{name} ({", ".join(defs)})',
                f'INSERT INTO {name} (k0) VALUES (1)']
     else:
